@@ -1,7 +1,6 @@
 /* C10 H-leaf: the leaf value parsers on symbolic payload bytes.
  * The TLV handed to a parser is produced exactly as in a real parse: KSI_TLV_parseBlob2 on an exact-size
- * heap buffer holding a TLV8 element (symbolic tag / non-critical / forward bits, payload length LEN concrete
- * per instance, payload bytes symbolic); the element's payload pointer therefore points INTO that buffer
+ * heap buffer holding a TLV8 element (payload length LEN concrete per instance, payload bytes symbolic); the element's payload pointer therefore points INTO that buffer
  * (one past its end when LEN = 0), as it does for the last child of any parsed composite.
  * Oracles are written from the KSI data-format rules quoted at each case, not from the code.
  * Everything created is freed again; the plan runs these instances with --memory-leak-check. */
@@ -16,6 +15,9 @@
 #define LEN 4
 #endif
 #define NB (LEN > 0 ? LEN : 1)
+#ifndef HDR0
+#define HDR0 0x25   /* tag 0x05, forward flag */
+#endif
 
 #define LEAF_INT 1
 #define LEAF_UTF8 2
@@ -162,9 +164,9 @@ void harness(void) {
 #else
 	/* ---- the TLV element as the parser sees it during a real parse ---- */
 	u8 *buf = verif_buf_alloc(2 + LEN);
-	u8 b0 = ND(u8, hdr0);
-	ASSUME((b0 & 0x80) == 0);                  /* TLV8 header form (LEN <= 255) */
-	buf[0] = b0; buf[1] = (u8)LEN;
+	/* TLV8 header; tag and flag bits are concrete per instance (HDR0): the header form decides where the payload
+	 * starts, and the leaf parsers never look at tag or flags */
+	buf[0] = (u8)(HDR0 & 0x7f); buf[1] = (u8)LEN;
 	for (unsigned i = 0; i < LEN; i++) { pl[i] = ND(u8, pl); buf[2 + i] = pl[i]; }
 	KSI_TLV *tlv = NULL;
 	res = KSI_TLV_parseBlob2(ctx, buf, 2 + LEN, 0, &tlv);
@@ -184,7 +186,7 @@ void harness(void) {
 		if (pl[0] >= 0x80) WITNESS_POINT("64-bit integer with top bit set accepted");
 #elif LEN == 0
 		WITNESS_POINT("empty payload accepted as zero");
-#else
+#elif LEN <= 8
 		if (pl[0] == 1) WITNESS_POINT("minimal integer accepted");
 #endif
 	} else {
@@ -215,7 +217,7 @@ void harness(void) {
 		if (u8class(pl[0]) == 4) WITNESS_POINT("3-octet sequence accepted");
 #elif LEN >= 2
 		if (pl[0] == 'a') WITNESS_POINT("ASCII string accepted");
-#else
+#elif LEN == 1 && LEAF == LEAF_UTF8
 		WITNESS_POINT("empty string accepted");
 #endif
 	} else {
